@@ -461,7 +461,7 @@ func TestCheck(t *testing.T) {
 	rec = mon.Open("C19")
 	defer rec.Close()
 	initCA()
-	rec.Note("rule", "a case is one scenario against the real SPIFFE object in a synctest bubble with a scripted issuer signing real SVIDs: (order) each of the six first-call orders of Run / Ready / GetX509SVID from separate goroutines x initial fetch succeeding or failing x consumer additionally parked inside GetX509SVID while it holds the read lock; (renewal) a seeded script of 3-8 issuer outcomes (validity windows from 2 s to 30 days, already past half-life, expired, not yet valid; failures: an issuer error, an empty answer, or a signed chain without a usable SPIFFE ID) with the virtual clock advanced in seeded steps of seconds to hours, optionally writing the identity to a directory and rotating the trust anchors. Non-trivial = the issuer received at least one request; distinct = distinct scenario description.")
+	rec.Note("rule", "a case is one scenario against the real SPIFFE object in a synctest bubble with a scripted issuer signing real SVIDs: (order) each of the six first-call orders of Run / Ready / GetX509SVID from separate goroutines x initial fetch succeeding or failing x consumer additionally parked inside GetX509SVID while it holds the read lock; (renewal) a seeded script of 3-8 issuer outcomes (validity windows from 2 s to 30 days, already past half-life, expired, not yet valid; failures: an issuer error, an empty answer, or a signed chain without a usable SPIFFE ID) with the virtual clock advanced in seeded steps of seconds to hours, optionally writing the identity to a directory and rotating the trust anchors. Issuer answers further vary the chain shape (leaf + intermediate, with the root appended, a rolled-over signer, a leaf whose subject equals its issuer's) and fail with errors that come together with a usable chain or that are themselves wrapped context errors; order cases include an unwritable identity directory and unavailable trust anchors; the trust-anchor source honours the context it is handed; a logger probe is called while the component logs and asks for the identity from inside the log sink (must not block); a second SPIFFE instance writes a sibling directory beside the first one's identity directory, whose file set must survive every rotation of the first. Non-trivial = the issuer received at least one request; distinct = distinct scenario description.")
 	rec.Note("require", []string{"order.get_first", "files.chain_shape.plain", "files.chain_shape.with-root", "files.chain_shape.rollover", "files.chain_shape.same-dn-leaf", "order.ready_first", "order.run_first", "order.initial_fetch_failed", "order.second_run_refused", "order.run_context_ended_during_initial_fetch", "order.consumer_parked_with_rlock", "renewal.requests", "renewal.on_time", "renewal.retry_after_failure", "renewal.served_latest_checked", "renewal.fresh_keys_checked", "renewal.unusable_answer_scripted", "renewal.get_during_inflight_renewal", "renewal.reader_parked_across_renewal", "renewal.consumer_get_at_publication", "files.sets_checked", "anchors.source_uses_kit_pem_encoder", "files.undisturbed_after_failed_fetch", "sibling.file_set_checked_after_a_publication_of_this_instance", "anchors.asked_with_a_live_context", "issuer.error_returned_with_a_usable_chain", "issuer.error_is_a_wrapped_deadline_exceeded", "issuer.error_is_a_wrapped_canceled", "renewal.get_while_component_logs", "order.initial_fetch_failed_at_publication.identity-dir-unwritable", "order.initial_fetch_failed_at_publication.anchors-unavailable"})
 	ps := plans()
 	rec.Planned(len(ps))
